@@ -430,6 +430,7 @@ func cmdDump(args []string) int {
 	repo := fs.String("repo", "/repo", "repository")
 	only := fs.String("func", "", "function filter")
 	obn := fs.String("ob", "", "obligation name filter")
+	lvl := fs.Int("level", 0, "relevance slice level")
 	fs.Parse(args)
 	P, err := loadProgram(*repo, filepath.Join(verifDir(), "lib"))
 	if err != nil {
@@ -447,9 +448,15 @@ func cmdDump(args []string) int {
 			}
 			fmt.Println(";;", ob.Name)
 			if *obn != "" {
-				fmt.Println(ob.Query())
+				fmt.Println(ob.QueryLevel(*lvl))
 			}
 		}
 	}
 	return 0
 }
+
+func init() {
+	dumpLevel = 0
+}
+
+var dumpLevel int
